@@ -132,6 +132,8 @@ type h1View struct {
 	version uint64
 	left    bool
 	everLeft bool // this observer has at some time shown the node as left
+	leftSeenSet bool
+	leftSeenAt  time.Time // when this observer first showed the node as left (since it last learnt it)
 }
 
 type h1Node struct {
@@ -225,6 +227,15 @@ func (w *h1World) addNode() *h1Node {
 			sl, pl, nd.w, log.NewNopLogger())
 	}()
 	<-done
+	if w.driven && nd.g != nil {
+		// The driven mode disables piko's tickers with an hours-long interval, but
+		// the detector's bootstrap interval is derived from it (2 x interval);
+		// give the detector the bootstrap of a production configuration (2 x 100ms)
+		// so that liveness evaluation behaves as deployed.
+		fd := newAccrualFailureDetector(200*time.Millisecond, 50)
+		nd.g.state.failureDetector = fd
+		nd.g.packetListener.failureDetector = fd
+	}
 	w.nodes = append(w.nodes, nd)
 	w.byID[nd.id] = nd
 	w.byAddr[nd.addr] = nd
@@ -293,6 +304,9 @@ func (w *h1World) deliver(p *h1Packet) {
 			w.lastDigestFrom[p.dst] = p.src
 			w.mu.Unlock()
 		}
+	}
+	if w.driven {
+		time.Sleep(time.Millisecond) // arrivals at a node are strictly increasing in time
 	}
 	w.nw.Inject(p.src, p.dst, p.b)
 	synctest.Wait()
@@ -792,6 +806,7 @@ func (w *h1World) checkAll(localOpOn *h1Node) {
 		for _, id := range o.w.takeExpired() {
 			if v := o.views[id]; v != nil {
 				v.known = false // forgotten: monotonicity and stickiness tracking restart
+				v.leftSeenSet = false
 			}
 		}
 		metas := o.g.state.Nodes()
@@ -825,6 +840,7 @@ func (w *h1World) checkAll(localOpOn *h1Node) {
 		for id, v := range o.views {
 			if !known[id] && v.known {
 				v.known = false // forgotten (expired): monotonicity tracking restarts
+				v.leftSeenSet = false
 			}
 		}
 		w.checkFold(o, metas)
@@ -848,6 +864,12 @@ func (w *h1World) checkView(o, x *h1Node, ns *NodeState) {
 	}
 	if pv.known && pv.left && !ns.Left {
 		run.Fail("C11.left-sticky", "left-flag-cleared", "%s: was shown as left, now shown as live", tag)
+	}
+	if ns.Left && ns.Expiry.IsZero() {
+		run.Fail("C11.left-expire", "left-without-deadline", "%s: shown as left but holds no removal deadline, so it would never be forgotten", tag)
+	}
+	if ns.Left && !pv.leftSeenSet {
+		pv.leftSeenSet, pv.leftSeenAt = true, time.Now()
 	}
 	if ns.Left {
 		if !x.left {
